@@ -20,8 +20,8 @@ import random
 
 ID = "C01"
 DRIVER = "drv_c01"
-LEAN_TARGETS = ["PharmpyProofs.C01.Properties", "PharmpyProofs.C01.PropertiesAdvan", "drv_c01"]
-PROPERTIES = ["PharmpyProofs/C01/Properties.lean", "PharmpyProofs/C01/PropertiesAdvan.lean"]
+LEAN_TARGETS = ["PharmpyProofs.C01.Properties", "PharmpyProofs.C01.PropertiesAdvan", "PharmpyProofs.C01.PropertiesOmega", "drv_c01"]
+PROPERTIES = ["PharmpyProofs/C01/Properties.lean", "PharmpyProofs/C01/PropertiesAdvan.lean", "PharmpyProofs/C01/PropertiesOmega.lean"]
 LEAN_SOURCES = ["PharmpyModel/C01/*.lean", "PharmpyModel/Generated/Advan.lean", "PharmpyProofs/C01/*.lean", "Drivers/C01.lean"]
 TIME_LIMIT = {"quick": 900, "thorough": 3000}
 CASE_CPU_LIMIT = 60
@@ -236,8 +236,14 @@ def gen_cases(rng: random.Random, n: int, tier: str):
             out.append({"kind": "theta", "form": form, "low": rng.randint(-3, 0), "init": rng.randint(1, 4),
                         "up": rng.randint(5, 9), "n": rng.randint(2, 4), "fix": form in ("init", "init-xn") and rng.random() < 0.4, "seed": seed})
             continue
+        if r < 0.09:
+            out.append(g_thetas_case(rng, seed))
+            continue
+        if r < 0.36:
+            out.append(g_omega_case(rng, seed))
+            continue
         safe = rng.random() < 0.5
-        if r < 0.20:
+        if r < 0.48:
             pk, d = g_prog(rng, safe, rng.randint(2, 5))
             err, _ = g_prog(rng, safe, rng.randint(2, 5), () if rng.random() < 0.5 else d)
             # statements of $ERROR may read what $PK defined
@@ -292,8 +298,36 @@ def corpus_cases():
         {"kind": "theta", "form": "init-xn", "low": 0, "init": 1, "up": 5, "n": 2, "fix": False, "seed": 20},
         {"kind": "theta", "form": "low-init-up-xn", "low": 0, "init": 1, "up": 2, "n": 3, "fix": False, "seed": 21},
     ]
+    one = [{"t": "diag", "items": [{"v": "1", "reps": 1, "sd": False, "var": False, "fix": False, "paren": False, "optfirst": False}], "diagn": False}]
+
+    def blk(n, vals, sd=False, corr=False, chol=False, fix=False):
+        return {"t": "block", "n": n, "sd": sd, "corr": corr, "chol": chol, "fix": fix, "var": False, "cov": False,
+                "vals": [[v, 1] for v in vals], "optpos": "after"}
+    cs += [
+        # the seeded change that was missed: CHOLESKY factor listed row by row of the lower triangle, n = 3
+        {"kind": "omega", "omega": [blk(3, ["1", "2", "3", "4", "5", "6"], chol=True)], "sigma": one, "seed": 30},
+        {"kind": "omega", "omega": one, "sigma": [blk(3, ["0.8", "-0.3", "0.7", "0.2", "0.1", "1.1"], chol=True)], "seed": 31},
+        # nmhelp: five spellings of one matrix
+        {"kind": "omega", "omega": [blk(2, ["0.64", "-0.24", "0.58"]), blk(2, ["0.8", "-0.24", "0.762"], sd=True),
+                                    blk(2, ["0.8", "-0.394", "0.762"], sd=True, corr=True), blk(2, ["0.64", "-0.394", "0.58"], corr=True),
+                                    blk(2, ["0.8", "-0.3", "0.7"], chol=True)], "sigma": one, "seed": 32},
+        {"kind": "omega", "omega": [blk(3, ["0.3", "0.01", "0.5", "-0.02", "0.03", "0.7"]), {"t": "same", "size": True, "m": None},
+                                    {"t": "same", "size": False, "m": None}], "sigma": one, "seed": 33},
+        # SAME(m): m further blocks
+        {"kind": "omega", "omega": [blk(2, ["0.64", "-0.24", "0.58"]), {"t": "same", "size": True, "m": 3}], "sigma": one, "seed": 34},
+        # Fortran D exponent in $THETA
+        {"kind": "thetas", "items": [{"form": "init", "init": ["2", "2"], "low": "0", "up": "20", "n": 2, "fixpos": "none", "fixkw": "FIX", "sep": ",", "infkw": "INF"}],
+         "split": False, "dexp": True, "seed": 37},
+        # commas between initial estimates
+        {"kind": "omega", "comma": True, "omega": [blk(2, ["0.3", "0.01", "0.5"])], "sigma": one, "seed": 36},
+        # BLOCK(n) VALUES(diag, odiag)
+        {"kind": "omega", "omega": [{"t": "values", "n": 3, "d": "0.1", "o": "0.01"}], "sigma": one, "seed": 35},
+    ]
     for a, t in ADVAN_ENTRIES:
         cs.append({"kind": "advan", "advan": a, "trans": t, "seed": 100 + len(cs)})
+    for a in ["ADVAN1", "ADVAN2", "ADVAN3", "ADVAN4", "ADVAN10", "ADVAN11", "ADVAN12"]:
+        cs.append({"kind": "advan", "advan": a, "trans": "TRANS1", "extras": "Sn", "seed": 100 + len(cs)})
+        cs.append({"kind": "advan", "advan": a, "trans": "TRANS1", "extras": "SC", "seed": 100 + len(cs)})
     return cs
 
 
@@ -305,6 +339,9 @@ ADVAN_ENTRIES = [("ADVAN1", "TRANS1"), ("ADVAN1", "TRANS2"), ("ADVAN2", "TRANS1"
 
 
 def shrink(case):
+    if case.get("kind") == "omega":
+        yield from shrink_omega(case)
+        return
     if case.get("kind") != "prog":
         return
     for key in ("stmts", "stmts2"):
@@ -1029,6 +1066,12 @@ def run_advan(case, drv):
     if basic == "none" or spec == "none":
         raise RuntimeError(f"no spec entry for {a} {t}")
     pk = "\n".join(f"{p} = THETA({i + 1})" for i, p in enumerate(basic))
+    extras = case.get("extras")
+    if extras:
+        # scaling, lag time and bioavailability of the default observation / dose compartments
+        so, sd_ = int(wiring[1]), int(wiring[3])
+        scal = f"S{so}" if extras == "Sn" else "SC"
+        pk += f"\n{scal} = THETA(1)*2\nALAG{sd_} = THETA(1)/3\nF{sd_} = THETA(1)/(THETA(1) + 1)"
     text = ("$PROBLEM c01\n$INPUT ID TIME DV AMT\n$DATA c01.csv IGNORE=@\n"
             f"$SUBROUTINE {a} {t}\n$PK\n{pk}\n$ERROR\nY = F + EPS(1)\n"
             "$THETA " + " ".join("(0,%d)" % (i + 1) for i in range(len(basic))) + "\n$OMEGA 0.1\n$SIGMA 1\n$ESTIMATION METHOD=1\n")
@@ -1092,6 +1135,15 @@ def run_advan(case, drv):
     fl = [s for s in model.statements.after_odes if isinstance(s, Assignment) and str(s.symbol) == "F"]
     inv = {v: kk for kk, v in cmap.items()}
     want = f"A_{inv[int(spec_obs)]}(t)"
+    if extras:
+        want = f"{want}/{scal}"
+        dc = comps[inv[int(spec_dose)]]
+        if str(dc.lag_time) != f"ALAG{sd_}" or str(dc.bioavailability) != f"F{sd_}":
+            mon.append({"cls": "advan-lag-bioavailability", "what": f"{a}: dose compartment {dc.name} has lag_time {dc.lag_time}, bioavailability "
+                        f"{dc.bioavailability}; the $PK defines ALAG{sd_} and F{sd_}"})
+        others = [c for nme, c in comps.items() if nme != dc.name and (str(c.lag_time) != "0" or str(c.bioavailability) != "1")]
+        if others:
+            mon.append({"cls": "advan-lag-bioavailability", "what": f"{a}: compartments {[c.name for c in others]} got a lag time / bioavailability that $PK does not define"})
     if not fl or str(fl[0].expression) != want:
         mon.append({"cls": "advan-default-observation-compartment", "what": f"{a}: F = {fl[0].expression if fl else None}, expected {want}"})
     if wiring[0] != wiring[1] or wiring[2] != wiring[3]:
@@ -1133,4 +1185,460 @@ def run_case(case, drv):
         return run_advan(case, drv)
     if kind == "theta":
         return run_theta(case, drv)
+    if kind == "omega":
+        return run_omega(case, drv)
+    if kind == "thetas":
+        return run_thetas(case, drv)
     raise ValueError(kind)
+
+
+# ================================================================ $OMEGA / $SIGMA forms
+# (added after an independently seeded change of the CHOLESKY fill order was not caught)
+
+from fractions import Fraction  # noqa: E402
+
+KW = {"sd": ["STANDARD", "STAN", "SD", "ST", "S"], "var": ["VARIANCE", "VARI", "VAR", "V"],
+      "corr": ["CORRELATION", "CORREL", "CORR", "COR"], "cov": ["COVARIANCE", "COVAR", "COV"],
+      "chol": ["CHOLESKY", "CHOLES", "CHOL", "CHO"], "fix": ["FIX", "FIXED", "FIXE"],
+      "block": ["BLOCK", "BLOC", "BLO"], "diag": ["DIAGONAL", "DIAGON", "DIAG", "DIA"]}
+V_DIAG = ["0.1", "0.3", "0.4", "1.5", "2", "0.25", "0.9", "0.64", "1"]
+V_COV = ["0.01", "-0.02", "0.005", "0.02", "-0.01", "0.002", "0"]
+V_CORR = ["0.3", "-0.394", "0.5", "-0.2", "0.1", "0", "-0.75", "0.15", "-0.1", "0.05", "-0.22"]
+V_SD = ["0.8", "0.5", "0.3", "1.2", "0.762", "2"]
+V_CHOL = ["0.8", "-0.3", "0.7", "0.2", "1.1", "-0.05", "0.4", "0"]
+
+
+def g_orec(rng, prev_block):
+    r = rng.random()
+    if prev_block and r < 0.15:
+        return {"t": "same", "size": rng.random() < 0.6, "m": rng.choice([None, None, None, 1, 2, 3]) }
+    if r < 0.40:
+        items = []
+        for _ in range(rng.randint(1, 4)):
+            sd = rng.random() < 0.25
+            items.append({"v": rng.choice(V_SD if sd else V_DIAG), "reps": rng.choice([1, 1, 1, 2, 3]), "sd": sd,
+                          "var": (not sd) and rng.random() < 0.15, "fix": rng.random() < 0.2, "paren": rng.random() < 0.3,
+                          "optfirst": rng.random() < 0.3})
+        if rng.random() < 0.03:
+            items[rng.randrange(len(items))].update({"v": "0", "fix": False})      # documented refusal
+        return {"t": "diag", "items": items, "diagn": rng.random() < 0.25}
+    n = rng.choice([1, 2, 2, 3, 3, 3, 4, 4, 5])
+    form = rng.choice(["plain", "plain", "sd", "corr", "sdcorr", "chol", "chol"])
+    sd, corr, chol = form in ("sd", "sdcorr"), form in ("corr", "sdcorr"), form == "chol"
+    vals = []
+    for i in range(n):
+        for j in range(i + 1):
+            if chol:
+                v = rng.choice([x for x in V_CHOL if not x.startswith("-") and x != "0"]) if i == j else rng.choice(V_CHOL)
+            elif i == j:
+                v = rng.choice(V_SD if sd else V_DIAG)
+            elif corr:
+                # diagonally dominant correlation matrix (hence positive definite, as NM-TRAN requires)
+                v = rng.choice([c for c in V_CORR if abs(float(c)) * (n - 1) <= 0.9])
+            else:
+                v = rng.choice(V_COV)
+            vals.append([v, 1])
+    # merge equal neighbours into (v)xn sometimes
+    if rng.random() < 0.3:
+        merged = []
+        for v, _ in vals:
+            if merged and merged[-1][0] == v and rng.random() < 0.8:
+                merged[-1][1] += 1
+            else:
+                merged.append([v, 1])
+        vals = merged
+    return {"t": "block", "n": n, "sd": sd, "corr": corr, "chol": chol, "fix": rng.random() < 0.2,
+            "var": (not sd and not chol) and rng.random() < 0.2, "cov": (not corr and not chol) and rng.random() < 0.2,
+            "vals": vals, "optpos": rng.choice(["before", "after", "afterfirst", "mixed"])}
+
+
+def g_omega_case(rng, seed):
+    def recs():
+        out = []
+        for _ in range(rng.randint(1, 4)):
+            prev = bool(out) and out[-1]["t"] in ("block", "same")
+            out.append(g_orec(rng, prev))
+        return out
+    return {"kind": "omega", "omega": recs(), "sigma": recs() if rng.random() < 0.6 else [{"t": "diag", "items": [{"v": "1", "reps": 1, "sd": False, "var": False, "fix": False, "paren": False, "optfirst": False}], "diagn": False}],
+            "seed": seed}
+
+
+def r_orec(rec, name, rng, comma=False):
+    k = lambda key: rng.choice(KW[key])
+    if rec["t"] == "same":
+        s = f"${name} {k('block')}" + (f"({rec['n_prev']})" if rec["size"] else "") + " SAME"
+        if rec["m"] is not None:
+            s += f"({rec['m']})"
+        return s
+    if rec["t"] == "values":
+        return f"${name} {k('block')}({rec['n']}) VALUES({rec['d']},{rec['o']})"
+    if rec["t"] == "diag":
+        parts = []
+        for it in rec["items"]:
+            opts = ([k("sd")] if it["sd"] else []) + ([k("var")] if it["var"] else []) + ([k("fix")] if it["fix"] else [])
+            if it["reps"] > 1 or it["paren"]:
+                inner = (" ".join(opts) + " " + it["v"]) if (opts and it["optfirst"]) else " ".join([it["v"]] + opts)
+                parts.append(f"({inner})" + (f"x{it['reps']}" if it["reps"] > 1 else ""))
+            else:
+                parts.append(" ".join([it["v"]] + opts))
+        total = sum(it["reps"] for it in rec["items"])
+        head = f"${name} " + (f"{k('diag')}({total}) " if rec["diagn"] else "")
+        return head + (", " if comma else rng.choice([" ", "\n", "  "])).join(parts)
+    opts = ([k("sd")] if rec["sd"] else []) + ([k("var")] if rec["var"] else []) + ([k("corr")] if rec["corr"] else []) \
+        + ([k("cov")] if rec["cov"] else []) + ([k("chol")] if rec["chol"] else []) + ([k("fix")] if rec["fix"] else [])
+    rng.shuffle(opts)
+    pos = rec["optpos"]
+    before, after, first = [], [], []
+    for o in opts:
+        where = pos if pos != "mixed" else rng.choice(["before", "after", "afterfirst"])
+        {"before": before, "after": after, "afterfirst": first}[where].append(o)
+    vals = []
+    for idx, (v, reps) in enumerate(rec["vals"]):
+        if reps > 1:
+            vals.append(f"({v})x{reps}")
+        else:
+            vals.append(v)
+        if idx == 0 and first:
+            if reps > 1:
+                vals[-1] = f"({v} {' '.join(first)})x{reps}"
+            else:
+                vals[-1] = v + " " + " ".join(first)
+    # lay the values out row by row where possible
+    sep = ", " if comma else rng.choice([" ", "\n", "  "])        # pharmpy's grammar has no comma between values
+    return f"${name} " + " ".join(before + [f"{k('block')}({rec['n']})"] + after) + "\n" + sep.join(vals)
+
+
+def _fr(s):
+    return Fraction(s)
+
+
+def ref_blocks(recs):
+    """NONMEM's meaning of a list of $OMEGA (or $SIGMA) records: list of (n, lower triangle rows, fix);
+    entries are Fractions or ('sq', signed square) for VARIANCE CORRELATION off-diagonals.  None = refusal."""
+    out = []
+    for rec in recs:
+        if rec["t"] == "same":
+            if not out:
+                return None
+            for _ in range(rec["m"] or 1):
+                out.append(out[-1])
+        elif rec["t"] == "values":
+            n = rec["n"]
+            out.append((n, [[_fr(rec["d"]) if i == j else _fr(rec["o"]) for j in range(i + 1)] for i in range(n)], False))
+        elif rec["t"] == "diag":
+            for it in rec["items"]:
+                v = _fr(it["v"])
+                if v == 0 and not it["fix"]:
+                    return None
+                for _ in range(it["reps"]):
+                    out.append((1, [[v * v if it["sd"] else v]], it["fix"]))
+        else:
+            n = rec["n"]
+            x = [_fr(v) for v, reps in rec["vals"] for _ in range(reps)]
+            rows, pos = [], 0
+            for i in range(n):                      # the values are listed row by row of the lower triangle
+                rows.append(x[pos:pos + i + 1])
+                pos += i + 1
+            M = [[None] * (i + 1) for i in range(n)]
+            for i in range(n):
+                for j in range(i + 1):
+                    if rec["chol"]:
+                        M[i][j] = sum(rows[i][kk] * rows[j][kk] for kk in range(j + 1))
+                    elif i == j:
+                        M[i][j] = rows[i][i] ** 2 if rec["sd"] else rows[i][i]
+                    elif rec["corr"]:
+                        if rec["sd"]:
+                            M[i][j] = rows[i][j] * rows[i][i] * rows[j][j]
+                        else:
+                            r = rows[i][j]
+                            M[i][j] = ("sq", r * abs(r) * rows[i][i] * rows[j][j])
+                    else:
+                        M[i][j] = rows[i][j]
+            out.append((n, M, rec["fix"]))
+    return out
+
+
+def w_orec(rec):
+    fr = lambda s: (lambda f: str(f.numerator) if f.denominator == 1 else f"{f.numerator}/{f.denominator}")(_fr(s))
+    if rec["t"] == "same":
+        return ["same"]
+    if rec["t"] == "diag":
+        return ["diag"] + [[fr(it["v"]), it["reps"], it["sd"], it["var"], it["fix"]] for it in rec["items"]]
+    return ["block", rec["n"], rec["sd"], rec["corr"], rec["chol"], rec["fix"]] + [[fr(v), reps] for v, reps in rec["vals"]]
+
+
+def _is_pd(n, M):
+    """positive definiteness of a reference block (floats suffice: generated blocks are diagonally dominant)."""
+    import math
+    A = [[0.0] * n for _ in range(n)]
+    for i in range(n):
+        for j in range(i + 1):
+            v = M[i][j]
+            f = math.copysign(math.sqrt(abs(float(v[1]))), float(v[1])) if isinstance(v, tuple) else float(v)
+            A[i][j] = A[j][i] = f
+    L = [[0.0] * n for _ in range(n)]
+    for i in range(n):
+        for j in range(i + 1):
+            sm = A[i][j] - sum(L[i][kk] * L[j][kk] for kk in range(j))
+            if i == j:
+                if sm <= 1e-9:
+                    return False
+                L[i][i] = math.sqrt(sm)
+            else:
+                L[i][j] = sm / L[j][j]
+    return True
+
+
+def _close(code_val, ref):
+    """float from the code vs exact reference (Fraction or ('sq', signed square))."""
+    c = Fraction(float(code_val))
+    if isinstance(ref, tuple):
+        sq = c * abs(c)
+        return abs(sq - ref[1]) <= Fraction(1, 10**11) * max(1, abs(ref[1]))
+    return abs(c - ref) <= Fraction(1, 10**12) * max(1, abs(ref))
+
+
+def _lean_entry(tag, s):
+    f = Fraction(s)
+    return ("sq", f) if tag == "sq" else f
+
+
+def code_cov_blocks(model, rvs):
+    pv = {p.name: p for p in model.parameters}
+    out = []
+    for d in rvs:
+        n = len(d.names)
+        V = d.variance
+        M, fixes = [], []
+        for i in range(n):
+            row = []
+            for j in range(i + 1):
+                nme = str(V if n == 1 else V[i, j])
+                row.append(pv[nme].init)
+                fixes.append(pv[nme].fix)
+            M.append(row)
+        out.append((n, M, all(fixes), any(fixes)))
+    return out
+
+
+def run_omega(case, drv):
+    rng = random.Random(case["seed"])
+    k, mon, tags = [], [], []
+    case = {**case, "omega": [dict(r) for r in case["omega"]], "sigma": [dict(r) for r in case["sigma"]]}
+    for nme in ("omega", "sigma"):
+        prevn = None
+        for rec in case[nme]:
+            if rec["t"] in ("block", "values"):
+                prevn = rec["n"]
+            elif rec["t"] == "same":
+                rec["n_prev"] = prevn if prevn is not None else 1
+            else:
+                prevn = None
+    has_values = any(r["t"] == "values" for nme in ("omega", "sigma") for r in case[nme])
+    if has_values:
+        drv = None          # BLOCK(n) VALUES(d,o) is not in the Lean model (the code rejects it)
+    text = ("$PROBLEM c01\n$INPUT ID TIME DV\n$DATA c01.csv IGNORE=@\n$PRED\nY = THETA(1) + ETA(1) + EPS(1)\n$THETA 1\n"
+            + "\n".join(r_orec(r, "OMEGA", rng, bool(case.get("comma"))) for r in case["omega"]) + "\n"
+            + "\n".join(r_orec(r, "SIGMA", rng) for r in case["sigma"]) + "\n$ESTIMATION METHOD=1\n")
+    refs = {"omega": ref_blocks(case["omega"]), "sigma": ref_blocks(case["sigma"])}
+    for nme in ("omega", "sigma"):
+        for rec in case[nme]:
+            tags.append("omega:" + (rec["t"] if rec["t"] != "block" else
+                                    f"block{rec['n']}-" + ("chol" if rec["chol"] else ("sd" if rec["sd"] else "var") + ("corr" if rec["corr"] else ""))))
+    has_same_m = any(r["t"] == "same" and (r["m"] or 1) > 1 for nme in ("omega", "sigma") for r in case[nme])
+    lean_cov = {}
+    if drv is not None:
+        for nme in ("omega", "sigma"):
+            lean_cov[nme] = drv.ask(["omegacov"] + [w_orec(r) for r in case[nme]])
+    try:
+        model = read_model_from_string(text)
+    except Exception as e:
+        en = type(e).__name__
+        if en == "ModelSyntaxError" and (refs["omega"] is None or refs["sigma"] is None):
+            tags.append("omega-documented-refusal")
+            if drv is not None and not any(isinstance(v, list) and v and v[0] == "err" for v in lean_cov.values()):
+                k.append(f"code refuses ({e}), the model accepts: {text}")
+            return {"k": k, "mon": mon, "tags": tags, "nontrivial": True}
+        cls = "omega-values-rejected" if has_values else ("omega-comma-separator-rejected" if (case.get("comma") and en == "UnexpectedToken") else "omega-read-raises")
+        mon.append({"cls": cls, "what": f"read_model_from_string raised {en}: {str(e).splitlines()[0][:150]} on\n{text}"})
+        return {"k": k, "mon": mon, "tags": tags, "nontrivial": True}
+    cstream = model.internals.control_stream
+    for nme, rvs in (("omega", model.random_variables.etas), ("sigma", model.random_variables.epsilons)):
+        recs = case[nme]
+        ref = refs[nme]
+        code = code_cov_blocks(model, rvs)
+        # ---- K (e): OmegaRecord.parse() per record vs the Lean model
+        if drv is not None:
+            lp = drv.ask(["omegaparse"] + [w_orec(r) for r in recs])
+            crecs = cstream.get_records(nme.upper())
+            if len(crecs) != len(recs):
+                k.append(f"{nme}: {len(crecs)} records parsed, {len(recs)} written")
+            else:
+                for ri, (cr, lr) in enumerate(zip(crecs, lp)):
+                    cb = cr.parse()
+                    if lr[0] != "ok":
+                        k.append(f"{nme} record {ri}: model {lr}, code parsed {cb}")
+                        continue
+                    lb = lr[1:]
+                    if len(lb) != len(cb):
+                        k.append(f"{nme} record {ri}: model {len(lb)} blocks, code {len(cb)}")
+                        continue
+                    for (tag, lfix, lsame, linits), (_, cinits, cfix, csame) in zip(lb, cb):
+                        if (lsame == "true") != bool(csame):
+                            k.append(f"{nme} record {ri}: same flag model {lsame} code {csame}")
+                        elif not csame:
+                            if (lfix == "true") != bool(cfix) or len(linits) != len(cinits) or \
+                                    not all(_close(c, _lean_entry(tag, l)) for c, l in zip(cinits, linits)):
+                                k.append(f"{nme} record {ri}: model {tag} fix={lfix} {linits}, code fix={cfix} {list(cinits)}")
+            # ---- K (f): covariance blocks after SAME resolution vs the model object
+            lc = lean_cov[nme]
+            if lc and lc[0] == "err":
+                k.append(f"{nme}: model {lc}, code read the records")
+            elif len(lc) != len(code):
+                k.append(f"{nme}: model has {len(lc)} covariance blocks, model object {len(code)}")
+            else:
+                for bi, ((tag, ln, lfix, lvals), (cn, cM, call, cany)) in enumerate(zip(lc, code)):
+                    cflat = [v for row in cM for v in row]
+                    if int(ln) != cn or (lfix == "true") != call or len(lvals) != len(cflat) or \
+                            not all(_close(c, _lean_entry(tag, l)) for c, l in zip(cflat, lvals)):
+                        k.append(f"{nme} block {bi}: model {tag} n={ln} fix={lfix} {lvals}, model object n={cn} fix={call} {cflat}")
+        # ---- monitor: the model object's covariance at the initial estimates vs NONMEM's definition
+        if ref is None:
+            mon.append({"cls": "omega-refusal-missed", "what": f"{nme}: NM-TRAN refuses these records, the model was read:\n{text}"})
+            continue
+        if [b[0] for b in ref] != [c[0] for c in code]:
+            cls = "omega-same-count-ignored" if has_same_m else "omega-block-structure"
+            mon.append({"cls": cls, "what": f"{nme}: block sizes of the model object {[c[0] for c in code]}, NONMEM {[b[0] for b in ref]} for\n{text}"})
+            continue
+        for bi, ((rn, rM, rfix), (cn, cM, call, cany)) in enumerate(zip(ref, code)):
+            if not rfix and not _is_pd(rn, rM):
+                tags.append("omega-not-positive-definite-skipped")     # NM-TRAN refuses such a block
+                continue
+            bad = [(i, j) for i in range(rn) for j in range(i + 1) if not _close(cM[i][j], rM[i][j])]
+            if bad:
+                i, j = bad[0]
+                want = rM[i][j]
+                want_s = f"±sqrt({abs(want[1])}) (sign {'-' if want[1] < 0 else '+'})" if isinstance(want, tuple) else f"{want} = {float(want)}"
+                mon.append({"cls": "omega-block-values", "what": f"{nme} block {bi} (size {rn}): entry ({i + 1},{j + 1}) of the initial covariance "
+                            f"is {cM[i][j]} in the model object, NONMEM defines {want_s}; records:\n{text}"})
+                break
+            if rfix != call or call != cany:
+                mon.append({"cls": "omega-block-fix", "what": f"{nme} block {bi}: FIX {rfix} in the records, parameters fixed all={call} any={cany}\n{text}"})
+                break
+    return {"k": k, "mon": mon, "tags": tags, "nontrivial": any(r["t"] == "block" and r["n"] >= 2 for nme in ("omega", "sigma") for r in case[nme])}
+
+
+def shrink_omega(case):
+    for nme in ("omega", "sigma"):
+        recs = case[nme]
+        if len(recs) > 1:
+            for i in range(len(recs)):
+                rest = recs[:i] + recs[i + 1:]
+                if rest and rest[0]["t"] == "same":
+                    continue
+                c = dict(case)
+                c[nme] = rest
+                yield c
+        for i, r in enumerate(recs):
+            if r["t"] == "block" and r["n"] > 1 and all(reps == 1 for _, reps in r["vals"]):
+                n = r["n"] - 1
+                if any(q["t"] == "same" for q in recs[i + 1:i + 2]):
+                    continue
+                nr = dict(r)
+                nr["n"] = n
+                nr["vals"] = r["vals"][:n * (n + 1) // 2]
+                c = dict(case)
+                c[nme] = recs[:i] + [nr] + recs[i + 1:]
+                yield c
+            if r["t"] == "block" and r["fix"]:
+                nr = dict(r)
+                nr["fix"] = False
+                c = dict(case)
+                c[nme] = recs[:i] + [nr] + recs[i + 1:]
+                yield c
+
+
+# ================================================================ $THETA records, all documented forms
+
+TH_NUM = [("1", "1"), ("0.5", ".5"), ("0.01", "1E-2"), ("10", "1E1"), ("2.5", "2.5"), ("3", "3."), ("0.25", "2.5E-1"), ("7", "7")]
+
+
+def g_thetas_case(rng, seed):
+    items = []
+    for _ in range(rng.randint(1, 5)):
+        form = rng.choice(["init", "init", "paren-init", "low-init", "low-init-up", "ninf-init", "low-init-inf", "ninf-init-inf",
+                           "init-xn", "low-init-up-xn", "equal-bounds"])
+        init = rng.choice(TH_NUM)
+        fixpos = rng.choice(["none", "none", "none", "inside", "after"])
+        if form not in ("paren-init", "init-xn") and fixpos == "inside":
+            fixpos = "after"          # FIX inside parentheses with explicit bounds is a documented refusal
+        if form.endswith("xn") and fixpos == "after":
+            fixpos = "inside" if form == "init-xn" else "none"      # grammar: either xn or FIX after the parenthesis
+        if form == "equal-bounds":
+            fixpos = "none"
+        items.append({"form": form, "init": list(init), "low": rng.choice(["-2", "0", "-0.5", "0.001"]), "up": rng.choice(["20", "100", "1E2", "50.5"]),
+                      "n": rng.randint(2, 4), "fixpos": fixpos, "fixkw": rng.choice(KW["fix"]), "sep": rng.choice([",", ", ", " "]),
+                      "infkw": rng.choice(["INF", "inf", "1000000"])})
+    return {"kind": "thetas", "items": items, "split": rng.random() < 0.3, "dexp": False, "seed": seed}
+
+
+def run_thetas(case, drv):
+    k, mon, tags = [], [], []
+    inf = float("inf")
+    parts, want = [], []
+    for it in case["items"]:
+        v, sp = it["init"]
+        f = it["form"]
+        fx_in = f" {it['fixkw']}" if it["fixpos"] == "inside" else ""
+        fx_af = f" {it['fixkw']}" if it["fixpos"] == "after" else ""
+        sep = it["sep"]
+        if sep == " " and "inf" in f and it["infkw"] != "1000000":
+            sep = ","        # `(0 1 INF)`: the word INF after a blank is lexed with the parenthesis (loud); not generated
+        ninf = "-" + it["infkw"] if it["infkw"] != "1000000" else "-1000000"
+        lo, up = it["low"], it["up"]
+        fixed = it["fixpos"] != "none"
+        reps = 1
+        if f == "init":
+            s, b = f"{sp}{fx_af}", (-inf, inf)
+        elif f == "paren-init":
+            s, b = f"({sp}{fx_in}){fx_af}", (-inf, inf)
+        elif f == "low-init":
+            s, b = f"({lo}{sep}{sp}){fx_af}", (float(lo), inf)
+        elif f == "low-init-up":
+            s, b = f"({lo}{sep}{sp}{sep}{up}){fx_af}", (float(lo), float(up))
+        elif f == "ninf-init":
+            s, b = f"({ninf}{sep}{sp}){fx_af}", (-inf, inf)
+        elif f == "low-init-inf":
+            s, b = f"({lo}{sep}{sp}{sep}{it['infkw']}){fx_af}", (float(lo), inf)
+        elif f == "ninf-init-inf":
+            s, b = f"({ninf}{sep}{sp}{sep}{it['infkw']}){fx_af}", (-inf, inf)
+        elif f == "init-xn":
+            s, b, reps = f"({sp}{fx_in})x{it['n']}", (-inf, inf), it["n"]
+        elif f == "low-init-up-xn":
+            s, b, reps = f"({lo}{sep}{sp}{sep}{up})x{it['n']}", (float(lo), float(up)), it["n"]
+        elif f == "equal-bounds":
+            s, b, fixed = f"({sp}{sep}{sp}{sep}{sp})", (float(Fraction(v)), float(Fraction(v))), True     # implied FIX
+        else:
+            raise ValueError(f)
+        tags.append(f"theta:{f}" + ("+fix" if it["fixpos"] != "none" else ""))
+        parts.append(s)
+        want += [(float(Fraction(v)), b[0], b[1], fixed)] * reps
+    if case.get("dexp"):
+        parts.append("1D1")
+        want.append((10.0, -inf, inf, False))
+    if case["split"] and len(parts) > 1:
+        h = len(parts) // 2
+        th = "$THETA " + " ".join(parts[:h]) + "\n$THETA " + "\n ".join(parts[h:])
+    else:
+        th = "$THETA " + " ".join(parts)
+    text = f"$PROBLEM c01\n$INPUT ID TIME DV\n$DATA c01.csv IGNORE=@\n$PRED\nY = THETA(1) + ETA(1) + EPS(1)\n{th}\n$OMEGA 0.1\n$SIGMA 1\n$ESTIMATION METHOD=1\n"
+    try:
+        model = read_model_from_string(text)
+    except Exception as e:
+        mon.append({"cls": "theta-record-rejected", "what": f"`{th}` raises {type(e).__name__}: {str(e).splitlines()[0][:120]}"})
+        return {"k": k, "mon": mon, "tags": tags, "nontrivial": True}
+    got = [(float(p.init), float(p.lower), float(p.upper), bool(p.fix)) for p in model.parameters if p.name.startswith("THETA")]
+    if got != want:
+        cls = "theta-fortran-d-exponent" if (case.get("dexp") and got[:-1] == want[:-1]) else "theta-values"
+        mon.append({"cls": cls, "what": f"`{th}` read as {got}, documented meaning {want}"})
+    return {"k": k, "mon": mon, "tags": tags, "nontrivial": len(want) > 1}
